@@ -1198,17 +1198,23 @@ class Wtp:
         assert isinstance(text, str)
         # print("PREPROCESS_TEXT: {!r}".format(text))
 
-        def _nowiki_sub_fn(m: re.Match) -> CookieChar:
+        def _nowiki_sub_fn(m: re.Match) -> str:
             """This function escapes the contents of a <nowiki> ... </nowiki>
-            pair."""
+            pair, replaces <nowiki /> and removes comments."""
             nowiki_content = m.group(1)
-            return self._save_value("N", (nowiki_content,), True)
+            if nowiki_content is not None:
+                return self._save_value("N", (nowiki_content,), True)
+            if m.group(0).startswith("<n") or m.group(0).startswith("<N"):
+                return MAGIC_NOWIKI_CHAR
+            return ""
 
+        # A single left-to-right pass, so that a <nowiki> inside a comment
+        # and a comment inside <nowiki> are both left alone
         text = re.sub(
-            r"(?si)<nowiki\s*>(.*?)</nowiki\s*>", _nowiki_sub_fn, text
+            r"(?si)<nowiki\s*>(.*?)</nowiki\s*>|<nowiki\s*/>|\n?<!--.*?-->",
+            _nowiki_sub_fn,
+            text,
         )
-        text = re.sub(r"(?si)<nowiki\s*/>", MAGIC_NOWIKI_CHAR, text)
-        text = re.sub(r"(?s)\n?<!--.*?-->", "", text)
         # print("PREPROCESSED_TEXT: {!r}".format(text))
         return text
 
